@@ -466,6 +466,13 @@ def fixed_cases(tier):
                        ("8051", [" case 1"]), ("8051", [" endcase"]), ("8051", [" dephase"]), ("8051", [" popv x,y"]),
                        ("68000", [" irpn 0,x,1", " nop", " endm"])]:
         out.append(dict(kind="stmt", cpu=cpu, lines=lines, opts=[]))
+    for cpu, lines, opts in [("z80", [" db txt"], ["-D", 'txt="ABCDEFGHIJKLMNOPQRSTUVWXYZ"']),
+                             ("z80", [" nop"], ["-D", "a=1/0"]), ("z80", [" nop"], ["-alias", "mycpu=z80"]),
+                             ("68HC12X", [" db nosuch", " align 6502,2"], []),
+                             ("8086", ["x equ 1", "x equ 2", "x: nop"], ["-X"]),
+                             ("z80", [" nop"], ["."]), ("NS32016", [' long "abc"'], []),
+                             ("KCPSM", [" load s0,abc)"], []), ("320C25", [' long "%s"' % ("x" * 200)], [])]:
+        out.append(dict(kind="stmt", cpu=cpu, lines=lines, opts=opts))
     for n in corpus.names():
         out.append(dict(kind="mut", test=n, ops=[]))       # the unmodified golden programs under the sanitizers
     root = os.path.join(engine.ROOT, "fuzz")
